@@ -43,7 +43,7 @@ func errStr(err error) string {
 	return "err:" + err.Error()
 }
 
-func (t *tdrv) Call(fn string, m int) string {
+func (t *tdrv) Call(fn string, m int, o pr.Opts) string {
 	switch fn {
 	case "OpenIn":
 		return errStr(t.in.Open())
@@ -57,12 +57,7 @@ func (t *tdrv) Call(fn string, m int) string {
 		t.nL++
 		id := t.nL
 		stop, err := midi.ListenTo(t.in, func(msg midi.Message, ts int32) {
-			var ch, key, vel uint8
-			k := -1
-			if msg.GetNoteOn(&ch, &key, &vel) {
-				k = int(key)
-			}
-			t.got = append(t.got, pr.Dlv{L: id, M: k})
+			t.got = append(t.got, pr.Dlv{L: id, M: pr.MsgID(msg)})
 		})
 		if err == nil {
 			t.stop = stop
@@ -74,7 +69,7 @@ func (t *tdrv) Call(fn string, m int) string {
 		}
 		return "nil"
 	case "Send":
-		return errStr(t.out.Send(midi.NoteOn(0, uint8(m), 64)))
+		return errStr(t.out.Send(pr.MsgBytes(m)))
 	}
 	hx.Die("unknown call", fn)
 	return ""
@@ -84,7 +79,7 @@ func (t *tdrv) Par(msgs [][]int) []string { // the in-memory driver is single-th
 	var r []string
 	for _, q := range msgs {
 		for _, m := range q {
-			r = append(r, t.Call("Send", m))
+			r = append(r, t.Call("Send", m, pr.Opts{}))
 		}
 	}
 	return r
